@@ -227,12 +227,17 @@ def plain_text(items: List[Any]) -> str:
 #   "accept" / "reject" at the SYNTAX level (semantic actions are not run), None = tie only
 # --------------------------------------------------------------------------------------
 
-def catalogue() -> List[Tuple[str, str, Optional[str]]]:
+def catalogue(known_keys: Sequence[str] = ()) -> List[Tuple[str, str, Optional[str]]]:
+    """known_keys: keys of known_findings.jsonl entries of the property.  The comment-at-eof case
+    (corpus/C08_lr/comment_at_eof.json, props C08_lr_comment_at_eof_refuted) is reported against
+    the expectation `accept` once the finding is listed (then it prints KNOWN-FINDING); until
+    the registry lists it, it is compared with the model only."""
     C: List[Tuple[str, str, Optional[str]]] = []
     C.append(("empty file", "", "accept"))
     C.append(("only newlines", "\n\n\n", "accept"))
     C.append(("only comments", "// a\n// b\n", "accept"))
-    C.append(("comment without final newline", "proto a\n// tail", None))
+    C.append(("comment without final newline [comment-at-eof]", "proto a\nmessage M {} // tail",
+              "accept" if "comment-at-eof" in known_keys else None))
     C.append(("no final newline", "proto a", "accept"))
     C.append(("missing proto", "message M {}\n", "accept"))
     stmts = ["proto a", "import \"x.bitproto\"", "import y \"x.bitproto\"", "option max_bytes = 3", "type T = uint3",
